@@ -127,8 +127,9 @@ Seed3 == [A |-> [k \in AIds |-> IF k = 1 THEN ARowOf(2) ELSE NoA],
           B |-> [k \in BIds |-> NoB], L |-> {}]
 SeedDbs == {EmptyDb, Seed1, Seed2, Seed3}
 
+(* a behaviour may start inside a freshly opened session (the harness opens it): one more level for the calls *)
 InitSeeded == /\ db \in SeedDbs /\ tx = db /\ cur = db
-              /\ sess = "none" /\ pendNew = {} /\ pendDel = {} /\ known = {} /\ loadedB = {}
+              /\ sess \in {"none", "open"} /\ pendNew = {} /\ pendDel = {} /\ known = {} /\ loadedB = {}
               /\ ev = Ev("Init", "-", 0, 0, 0, "ok", {})
 
 Begin == /\ sess = "none"
